@@ -32,7 +32,23 @@ REPO = Path(os.environ.get("LIQUID2_REPO", "/repo"))
 CASES_DIR = COQ / "_build_cases"
 REPLAYS = VERIF / "replays"
 EVIDENCE = VERIF / "evidence"
-JOBS = int(os.environ.get("VERIF_JOBS", "16"))
+def _default_jobs() -> int:
+    """All 16 cores on an idle machine; fewer when it is already loaded (many
+    checks running side by side would otherwise exhaust memory)."""
+    try:
+        load = os.getloadavg()[0]
+    except OSError:
+        load = 0.0
+    if load > 48:
+        return 3
+    if load > 24:
+        return 6
+    if load > 12:
+        return 10
+    return 16
+
+
+JOBS = int(os.environ.get("VERIF_JOBS", "0")) or _default_jobs()
 
 FORBIDDEN = re.compile(
     r"\b(Admitted|admit|Axiom|Axioms|Parameter|Parameters|Conjecture|Conjectures|"
